@@ -15,7 +15,7 @@
    Every theorem is for ALL station lists, ALL well-formed histories (hence all their prefixes:
    C19_prefix_closed) and ALL choice functions ch, i.e. every seed.  Only statements here. *)
 From Coq Require Import ZArith List Bool String Sorted.
-From ACN Require Import Base.Num Model.StochNet Proofs.StochNet.
+From ACN Require Import Base.Num Model.StochNet Model.StochNetGen Proofs.StochNet Proofs.StochNetGen.
 Import ListNotations.
 Open Scope Z_scope.
 Open Scope list_scope.
@@ -161,6 +161,15 @@ Theorem C19_deterministic : forall ch ch' evs st st',
   run ch' st evs = Ok st'.
 Proof. exact thm_deterministic. Qed.
 Print Assumptions C19_deterministic.
+
+(* tie to the source: the model used above IS the interpretation of the control skeletons
+   (guards, branch structure, counter updates, order of the state-changing calls) regenerated on
+   every run from StochasticNetwork.plugin / unplug / post_charging_update / available_evses and
+   ChargingNetwork.plugin (Gen/StochNet_Z.v, interpreted by Model/StochNetGen.v) — for every
+   state, event and choice function *)
+Theorem C19_model_is_generated_skeleton : forall ch st e, gen_step ch st e = step ch st e.
+Proof. exact gen_step_eq. Qed.
+Print Assumptions C19_model_is_generated_skeleton.
 
 (* ---- non-vacuity: a concrete history with 2 stations and 5 sessions in which a queue forms, a
    waiting EV leaves uncharged, a satisfied EV departs early and the head of the queue is admitted;
